@@ -9,6 +9,7 @@ import (
 	"github.com/relex/gotils/promexporter/promreg"
 	"github.com/relex/slog-agent/base"
 	"github.com/relex/slog-agent/defs"
+	"github.com/relex/slog-agent/util/vhook"
 )
 
 // ClientWorker is a common client implementing ChunkConsumer
@@ -149,6 +150,7 @@ func (client *ClientWorker) runSession(leftovers chan base.LogChunk) (chan base.
 	client.metrics.OnOpening()
 
 	sess := newClientSession(client, conn)
+	vhook.At("worker.session.beforeStore")
 	client.activeSession.Store(sess)
 
 	defer func() {
